@@ -143,6 +143,42 @@ def usability_layer(ctx, rng, quick):
         return 0, "", (rc2 == 0 and "IMPORTED" in o2, e2[-600:])
     with ThreadPoolExecutor(max_workers=12) as ex:
         res = list(ex.map(one, enumerate(graphs)))
+    # generic types of an imported package instantiated with types of the importing package: the argument is a dependency of the
+    # user (declared later here), and a cycle through such an argument is a cycle
+    lib = "Box<T>: !record\n  fields:\n    v: T\n    n: int32\n\nPair<A, B>: !record\n  fields:\n    a: A\n    b: B*\n"
+    crafted = [("imported-generic-local-argument-declared-later", True,
+                "Holder: !record\n  fields:\n    b: Lib.Box<Item>\n    p: Lib.Pair<int32, Other>\n\nItem: !record\n  fields:\n    x: int32\n\nOther: !enum\n  values: [p, q]\n\n"
+                "P: !protocol\n  sequence:\n    h: Holder\n"),
+               ("cycle-through-imported-generic-argument", False, "Node: !record\n  fields:\n    next: Lib.Box<Node>\n"),
+               ("cycle-through-imported-generic-argument-2", False, "Na: !record\n  fields:\n    b: Lib.Pair<int32, Nb>\n\nNb: !record\n  fields:\n    a: Na?\n")]
+    for cname, valid, text in crafted:
+        base = os.path.join(ctx.scratch, "useg_" + cname)
+        os.makedirs(base + "/lib")
+        os.makedirs(base + "/root")
+        open(base + "/lib/_package.yml", "w").write("namespace: Lib\n")
+        open(base + "/lib/l.yml", "w").write(lib)
+        open(base + "/root/_package.yml", "w").write("namespace: Root\nimports:\n  - ../lib\npython:\n  outputDir: ../outpy\njson:\n  outputDir: ../outjson\n")
+        open(base + "/root/m.yml", "w").write(text)
+        rc, o, e = sh([ctx.yardl, "generate"], cwd=base + "/root", timeout=60)
+        rep = {"imported": lib, "root": text, "case": cname, "output": (o + e)[-600:]}
+        ctx.case(("usable-generic", cname), nontrivial=True, sample={"crafted": cname, "exit": rc})
+        if valid:
+            if rc != 0:
+                ctx.report("valid-graph-rejected", "yardl rejects a valid use of an imported generic type: " + (o + e)[-200:], rep)
+                continue
+            rc2, o2, e2 = sh([PY_VT, "-c", "import sys; sys.path.insert(0, %r); import root; print('IMPORTED')" % (base + "/outpy")], timeout=120)
+            if rc2 != 0 or "IMPORTED" not in o2:
+                ctx.report("imported-types-unusable:python", "the Python generated for a package that instantiates an imported generic type with "
+                           "its own types cannot be imported: %s" % e2.strip()[-160:], dict(rep, error=e2[-600:]))
+            mj = json.load(open(base + "/outjson/model.json"))
+            names = [list(t.values())[0]["name"] if isinstance(list(t.values())[0], dict) else None
+                     for ns_ in mj["namespaces"] if ns_["name"] == "Root" for t in ns_.get("types", [])]
+            if "Item" in names and "Holder" in names and names.index("Item") > names.index("Holder"):
+                ctx.report("dependency-after-dependent", "within the importing namespace a type used as the argument of an imported generic "
+                           "type is emitted after its user (order %s)" % names, dict(rep, order=names))
+        elif rc == 0 or "cycle" not in (o + e):
+            ctx.report("cycle-not-reported", "a reference cycle that runs through the type argument of an imported generic type is not "
+                       "reported (exit %d)" % rc, rep)
     for tree, (rc, out, imp) in zip(graphs, res):
         ctx.count("usability_graphs", "generated" if rc == 0 else "rejected")
         if rc != 0:
